@@ -400,9 +400,11 @@ def r2(run: Run, src, g, em, rt):
         if fn is None:
             run.bad('C17.R2', f'_excel_value_to_string[{cp.label}]', 'missing', 'the text-form helper is missing', loc=cp.path)
             continue
+        from ..finite import evaluator_for, const_av
         for kname, av, want_empty in (('blank', AV('blank', sign='zero'), True), ('empty text', AV('str', text='empty', val=''), True),
-                                      ('text', AV('str', text='other'), False), ('int', AV('int', sign='pos'), False)):
-            ev = Evaluator(cp.members)
+                                      ('text', AV('str', text='other'), False), ('int', AV('int', sign='pos'), False),
+                                      ('zero', const_av(0), False), ('FALSE', const_av(False), False), ('float zero', const_av(0.0), False)):
+            ev = evaluator_for(cp, hooks={'EmptyCell': lambda e_, a_: AV('blank', sign='zero')})
             try:
                 got = ev.call_method('_excel_value_to_string', [av])
             except (Unknown, AbsRaise) as u:
